@@ -282,6 +282,11 @@ def require_all(
     def authenticate(req: falcon.Request) -> AuthContext:
         claims = gate(req)
         if inner is None:
+            if claims.get("verified") == "false":
+                # The gate let the request through without verifying it (allow
+                # mode): it proceeds exactly as an anonymous request would, with
+                # the failed proof recorded in claims only.
+                return dataclasses.replace(AuthContext.anonymous(), claims={gate.claims_key: claims})
             return AuthContext(
                 domain=gate.name,
                 authenticated=True,
